@@ -40,7 +40,7 @@ fn cases(ctx: &Ctx, curve: &str) -> Vec<Case> {
         let s = r.u64();
         v.push(Case { curve: curve.into(), name, seed: s, cfg, cap_p: (s % 5) as u8, cap_v: ((s >> 8) % 5) as u8, cross_prover: true });
     }
-    let n = ctx.n(90, 6000);
+    let n = ctx.n(500, 8000);
     for i in 0..n {
         let big = i % 10 == 0;
         let cfg = random_cfg(&mut r, if big { max_g } else { 20 });
